@@ -399,7 +399,8 @@ void Curve::bezier(const Array<Vec2> points, bool relative) {
     }
     ctrl.count = points.count + 1;
     append_bezier(ctrl);
-    last_ctrl = points[points.count - 2];
+    // Second to last control point, in absolute coordinates
+    last_ctrl = ctrl[ctrl.count - 2];
     ctrl.clear();
 }
 
